@@ -51,12 +51,16 @@ type Assume struct {
 }
 
 type facts struct {
-	b map[ssa.Value]Tri // boolean facts
-	n map[ssa.Value]Tri // nil-ness facts (True = nil)
+	b   map[ssa.Value]Tri       // boolean facts
+	n   map[ssa.Value]Tri       // nil-ness facts (True = nil)
+	sel map[ssa.Value]ssa.Value // tracked phi -> value of the edge taken most recently
 }
 
 func (f facts) clone() facts {
-	g := facts{b: make(map[ssa.Value]Tri, len(f.b)+2), n: make(map[ssa.Value]Tri, len(f.n)+2)}
+	g := facts{b: make(map[ssa.Value]Tri, len(f.b)+2), n: make(map[ssa.Value]Tri, len(f.n)+2), sel: make(map[ssa.Value]ssa.Value, len(f.sel)+1)}
+	for k, v := range f.sel {
+		g.sel[k] = v
+	}
 	for k, v := range f.b {
 		g.b[k] = v
 	}
@@ -67,10 +71,13 @@ func (f facts) clone() facts {
 }
 
 func (f facts) key() string {
-	if len(f.b) == 0 && len(f.n) == 0 {
+	if len(f.b) == 0 && len(f.n) == 0 && len(f.sel) == 0 {
 		return ""
 	}
 	var parts []string
+	for k, v := range f.sel {
+		parts = append(parts, fmt.Sprintf("s%s=%s", k.Name(), v.Name()))
+	}
 	for k, v := range f.b {
 		parts = append(parts, fmt.Sprintf("b%s=%d", k.Name(), v))
 	}
@@ -88,6 +95,26 @@ type Facts struct {
 }
 
 func (F Facts) Bool(v ssa.Value) Tri { return evalBool(v, F.f, F.as, 0) }
+
+// Resolve returns the value a tracked phi carries on this path (or v itself).
+func (F Facts) Resolve(v ssa.Value) ssa.Value {
+	for i := 0; i < 8; i++ {
+		if u, ok := v.(*ssa.UnOp); ok && u.Op == token.MUL {
+			if a, ok := u.X.(*ssa.Alloc); ok {
+				if w, ok := F.f.sel[a]; ok {
+					v = w
+					continue
+				}
+			}
+		}
+		w, ok := F.f.sel[v]
+		if !ok {
+			return v
+		}
+		v = w
+	}
+	return v
+}
 func (F Facts) Nil(v ssa.Value) Tri  { return evalNil(v, F.f, F.as, 0) }
 
 // nonNilCallees are library constructors whose result is never nil.
@@ -257,6 +284,7 @@ type Query struct {
 	Assume   *Assume
 	Start    ssa.Instruction // nil = function entry; otherwise exploration starts *after* this instruction
 	Classify func(in ssa.Instruction, F Facts) Event
+	TrackPhi func(*ssa.Phi) bool // phis whose chosen edge is remembered along the path
 	MaxState int
 }
 
@@ -318,7 +346,7 @@ func Explore(q Query) *PathResult {
 	exitSeen := map[string]bool{}
 	hitSeen := map[string]bool{}
 	var work []*pstate
-	start := &pstate{blk: q.Fn.Blocks[0], f: facts{b: map[ssa.Value]Tri{}, n: map[ssa.Value]Tri{}}}
+	start := &pstate{blk: q.Fn.Blocks[0], f: facts{b: map[ssa.Value]Tri{}, n: map[ssa.Value]Tri{}, sel: map[ssa.Value]ssa.Value{}}}
 	if q.Start != nil {
 		start.blk = q.Start.Block()
 		start.idx = IndexIn(q.Start) + 1
@@ -367,6 +395,12 @@ func Explore(q Query) *PathResult {
 			case *ssa.Store:
 				// content of local variables (named results spilled because of defer, address-taken locals)
 				if a, ok := x.Addr.(*ssa.Alloc); ok {
+					if q.TrackPhi != nil {
+						if s.f.sel == nil {
+							s.f.sel = map[ssa.Value]ssa.Value{}
+						}
+						s.f.sel[a] = F.Resolve(x.Val)
+					}
 					if isBool(x.Val) {
 						if t := evalBool(x.Val, s.f, q.Assume, 0); t != Unknown {
 							s.f.b[a] = t
@@ -421,6 +455,7 @@ func Explore(q Query) *PathResult {
 			type upd struct {
 				v    ssa.Value
 				b, n Tri
+				sel  ssa.Value
 			}
 			var upds []upd
 			for _, in := range succ.Instrs {
@@ -433,6 +468,13 @@ func Explore(q Query) *PathResult {
 				}
 				e := phi.Edges[pi]
 				u := upd{v: phi}
+				if q.TrackPhi != nil && q.TrackPhi(phi) {
+					if w, ok := nf.sel[e]; ok {
+						u.sel = w
+					} else {
+						u.sel = e
+					}
+				}
 				if isBool(phi) {
 					u.b = evalBool(e, nf, q.Assume, 0)
 				} else {
@@ -445,6 +487,7 @@ func Explore(q Query) *PathResult {
 				if v, ok := in.(ssa.Value); ok {
 					delete(nf.b, v)
 					delete(nf.n, v)
+					delete(nf.sel, v)
 				}
 			}
 			for _, u := range upds {
@@ -453,6 +496,12 @@ func Explore(q Query) *PathResult {
 				}
 				if u.n != Unknown {
 					nf.n[u.v] = u.n
+				}
+				if u.sel != nil {
+					if nf.sel == nil {
+						nf.sel = map[ssa.Value]ssa.Value{}
+					}
+					nf.sel[u.v] = u.sel
 				}
 			}
 			// drop facts that no instruction reachable from succ can consult
@@ -464,6 +513,11 @@ func Explore(q Query) *PathResult {
 			for v := range nf.n {
 				if !rc.useful(v, succ) {
 					delete(nf.n, v)
+				}
+			}
+			for v := range nf.sel {
+				if !rc.useful(v, succ) {
+					delete(nf.sel, v)
 				}
 			}
 			work = append(work, &pstate{blk: succ, f: nf, cnt: cnt, parent: s})
